@@ -134,3 +134,53 @@ def rejection(env):
                     raised = type(e).__name__
                 env.holds("C08,C20", "%s set-up raises ValueError iff some surface has ground effect without symmetry [flags %s]" % (label, flags),
                           (raised == "ValueError") == should and raised in (None, "ValueError"), "raised %s, expected %s" % (raised, should))
+
+
+@job("c08.compressible_ground", ("C08", "C09"), cfgs=[dict(mach=0.3), dict(mach=0.75)], cost=5)
+def compressible_ground(env, mach):
+    """ground effect together with the Prandtl-Glauert solver: the configuration is either rejected at set-up (as the
+    repository does: the compressible states group has no ground-height input) or, where a model accepts it, its forces equal
+    those of the compressible free-air analysis of the wing together with its mirror image across the plane parallel to the free
+    stream at the given height below the origin.  The second branch is a BOUNDED stand-in (one sampled input, floating point,
+    1e-7 relative), not a proof; on a tree that rejects the configuration only the rejection is established."""
+    import openmdao.api as om
+    import warnings
+    if not env.sym:
+        return
+    from .. import sx
+    s = surface(name="wing", nx=3, ny=4, symmetry=True, side="left", groundplane=True, with_viscous=False, with_wave=False)
+    alpha, h = 4.0, 1.7
+    with sx.unpatched(), warnings.catch_warnings():
+        warnings.simplefilter("ignore")
+        p = om.Problem(reports=False)
+        gsx.aero_model([s], compressible=True)(p.model)
+        try:
+            p.setup()
+            p.final_setup()
+        except Exception as e:
+            env.holds("C08,C09", "compressible solver + ground effect: rejected at set-up or equal to the explicit image model",
+                      True, "rejected: %s" % str(e)[:80])
+            env.note("c08.compressible_ground: the tree rejects ground effect with the compressible solver at set-up (%s)" % type(e).__name__)
+            return
+        mesh = np.array(s["mesh"], dtype=float)
+        mesh[:, :, 2] += 0.05 * mesh[:, :, 1] ** 2                     # some dihedral-like curvature: a general planform
+        a = np.radians(alpha)
+        n = np.array([np.sin(a), 0.0, -np.cos(a)])
+        image = mesh - 2 * ((mesh - n * h) @ n)[:, :, None] * n
+        for k_, v_ in (("alpha", alpha), ("height_agl", h), ("Mach_number", mach), ("v", 50.0), ("rho", 1.1), ("wing_def_mesh", mesh)):
+            p.set_val(k_, v_)
+        p.run_model()
+        f_gp = np.array(p.get_val("ap.aero_states.wing_sec_forces"))
+        s1 = dict(s, groundplane=False)
+        s2 = dict(s1, name="image", mesh=image)
+        q = om.Problem(reports=False)
+        gsx.aero_model([s1, s2], compressible=True)(q.model)
+        q.setup()
+        for k_, v_ in (("alpha", alpha), ("Mach_number", mach), ("v", 50.0), ("rho", 1.1), ("wing_def_mesh", mesh), ("image_def_mesh", image)):
+            q.set_val(k_, v_)
+        q.run_model()
+        f_img = np.array(q.get_val("ap.aero_states.wing_sec_forces"))
+    dev = float(np.max(np.abs(f_gp - f_img))) / max(float(np.max(np.abs(f_img))), 1e-300)
+    env.holds("C08,C09", "compressible solver + ground effect: rejected at set-up or equal to the explicit image model",
+              dev <= 1e-7, "[bounded: one sampled input] accepted at set-up; panel forces differ from the wing + mirror image model by %.3g relative (Mach %.2f)" % (dev, mach))
+    env.assumptions.add("c08.compressible_ground: the 'accepted' branch is a bounded numerical check (labelled bounded; not counted as proved)")
